@@ -2,6 +2,7 @@ package rules
 
 import (
 	"fmt"
+	"go/constant"
 	"go/types"
 	"strings"
 
@@ -177,3 +178,5 @@ func fieldName(ptrT types.Type, i int) string {
 	}
 	return ""
 }
+
+func constantBool(b bool) constant.Value { return constant.MakeBool(b) }
